@@ -118,8 +118,18 @@ def foldNotes (ms : List Mut) : List Nat := ms.foldl foldStep []
 /-- Equality of contents (lists as sets). -/
 def sameSet (a b : List Nat) : Bool := a.all (b.contains ·) && b.all (a.contains ·)
 
+/-- Every note is a **true difference**, in the order in which the changes happened: what it adds was
+absent from the fold `t` of the notes before it, what it deletes is present by then (after its own
+additions — `ds.Set.Apply` adds first, then deletes).  E.g. never "delete 7" before "add 7", never
+"add 7" twice without a "delete 7" in between. -/
+def diffFrom (t : List Nat) : List Mut → Bool
+  | [] => true
+  | m :: r => m.1.all (fun x => !t.contains x) && m.2.all (fun x => (t ++ m.1).contains x) && diffFrom (foldStep t m) r
+
+def trueDiffs (ms : List Mut) : Bool := diffFrom [] ms
+
 def setOk (active : Bool) (final : List Nat) (evs : List (Ev Mut)) : Bool :=
-  closed evs && noneAfterUnsub evs && (!active || sameSet (foldNotes (notes evs)) final)
+  closed evs && noneAfterUnsub evs && trueDiffs (notes evs) && (!active || sameSet (foldNotes (notes evs)) final)
 
 /-- Exactly once, in order, against a reference subscription that was registered before every write
 and never unsubscribed: after the optional initial note the notes are a contiguous run of what
@@ -132,6 +142,7 @@ def setWhy (active : Bool) (final : List Nat) (evs : List (Ev Mut)) : String :=
   if !exclusive evs then "reject overlap"
   else if !closed evs then "reject unfinished"
   else if !noneAfterUnsub evs then "reject after-unsubscribe"
+  else if !trueDiffs (notes evs) then "reject not-a-true-difference"
   else if active && !sameSet (foldNotes (notes evs)) final then "reject fold-is-not-contents"
   else "accept"
 
